@@ -1232,11 +1232,19 @@ func ruleIDSources(r *Run) {
 				info := inst.Info()
 				holder := inst
 				where := inst.origOrSelf().Name
+				reached := func(n ast.Node) bool {
+					for _, pe := range path.Events {
+						if pe.Node != nil && pe.Fn == inst && pe.Node.Pos() <= n.Pos() && n.End() <= pe.Node.End() {
+							return true
+						}
+					}
+					return false
+				}
 				ast.Inspect(inst.Body, func(nd ast.Node) bool {
 					switch v := nd.(type) {
 					case *ast.CompositeLit:
 						pk, tn := litTypeName(info, v)
-						if pk != "models" {
+						if pk != "models" || !reached(v) {
 							return true
 						}
 						switch tn {
@@ -1267,7 +1275,7 @@ func ruleIDSources(r *Run) {
 						}
 					case *ast.CallExpr:
 						// NewSession(h.Sessions.NewID(), ...)
-						if f, _ := calleeObj(info, v).(*types.Func); f != nil && funcName(f) == "models.NewSession" && len(v.Args) > 0 {
+						if f, _ := calleeObj(info, v).(*types.Func); f != nil && funcName(f) == "models.NewSession" && len(v.Args) > 0 && reached(v) {
 							c := r.P.Canon(holder, v.Args[0])
 							key := fmt.Sprintf("S|%s|%d|%s", where, v.Pos(), c)
 							if !done[key] {
